@@ -329,14 +329,24 @@ def free_layout(flat, rnd, opts):
                     # classify a break adjacent to a doubled quote
                     if (txt[p - 1] == q and 1 < p) or (txt[p] == q and p < len(txt) - 1):
                         lay.features.add("lit_break_at_quote")
-                    cur += txt[:p] + "&"
-                    flush()
-                    if opts.cont_comments and r.chance(opts.cont_comments):
-                        c = comment_text()
-                        lines.append(c)
-                        lay.comments.append((len(lines), c, "full"))
-                        lay.features.add("comment_in_lit_cont")
-                    cur = " " * (r.n(0, 6) if opts.indent else 0) + "&" + txt[p:]
+                    rest = txt
+                    while True:
+                        cur += rest[:p] + "&"
+                        rest = rest[p:]
+                        flush()
+                        if opts.cont_comments and r.chance(opts.cont_comments):
+                            c = comment_text()
+                            lines.append(c)
+                            lay.comments.append((len(lines), c, "full"))
+                            lay.features.add("comment_in_lit_cont")
+                        cur = " " * (r.n(0, 6) if opts.indent else 0) + "&"
+                        # the rest of the literal may be broken again: inner lines then hold no quote at all
+                        if len(rest) >= 3 and r.chance(45):
+                            p = r.n(1, len(rest) - 2)
+                            lay.features.add("lit_break_twice")
+                            continue
+                        cur += rest
+                        break
                     del body
                 else:
                     cur += txt
@@ -384,7 +394,11 @@ def default_gap(a, b):
 
 FIX_CONT_MARKS = list("123456789&$+*!abcxyzABC.#-=")
 FIX_COMMENT_POOL = ["C plain comment", "c lower comment", "* star comment", "! bang comment", "C", "c it's",
-                    "*     x = 1", "C     continue", "! a & b x", "c 'quote"]
+                    "*     x = 1", "C     continue", "! a & b x", "c 'quote",
+                    # column 1 makes these comments although they read like statements or words
+                    "CALL BUMP(I)", "continue", "Common set-up for the loop", "Close the file here", "character of the data",
+                    "complex part", "contains the main loop", "cycle counter", "case 1: nothing", "check this", "Cx", "c",
+                    "*** banner ***", "common /blk/ x", "character(len = 3) :: c"]
 
 
 class FixedOpts:
